@@ -296,6 +296,45 @@ func runC08(c *Ctx) {
 			}
 		}
 	}
+	// ---------- the account arrives as a token written by another implementation: member names of a scope object in
+	// another letter case (encoding/json reads them all the same; the "kind" member, which the library itself looks
+	// up, stays as it is) - the scoped key signs for the account like any other
+	{
+		ac := jwt.NewAccountClaims(A)
+		ac.SigningKeys.Add(K1)
+		us := jwt.NewUserScope()
+		us.Key, us.Role = K2, "r"
+		ac.SigningKeys.AddScopedSigner(us)
+		tok, err := ac.Encode(akp)
+		if err != nil {
+			panic(err)
+		}
+		seg := strings.Split(tok, ".")
+		raw, _ := b64.DecodeString(seg[1])
+		for _, respell := range [][2]string{{`"key":`, `"Key":`}, {`"key":`, `"KEY":`}, {`"role":`, `"Role":`}, {`"template":`, `"TEMPLATE":`}, {`"signing_keys":`, `"Signing_Keys":`}} {
+			if !strings.Contains(string(raw), respell[0]) {
+				continue
+			}
+			pj := strings.Replace(string(raw), respell[0], respell[1], -1)
+			ft := forge(hdrV2, pj, "v2", &signer{kp: akp, pub: A, role: "account"})
+			dac, err := jwt.DecodeAccountClaims(ft.Token)
+			c.sum.Evaluations++
+			c.sum.ImplChecks++
+			inp := map[string]interface{}{"entity": "account", "payload": pj, "respelled": respell[1]}
+			if err != nil {
+				inp["error"] = err.Error()
+				c.violation("an account token whose scope members are spelled in another letter case is refused", inp)
+				continue
+			}
+			for _, iss := range []string{K1, K2} {
+				if got := dac.DidSign(mkClaim("user", iss, U, A)); !got {
+					inp["issuer"] = nameOf(iss, A, K1, K2, AX, B)
+					c.violation("account DidSign differs from the trust rule for an account decoded from a token with respelled member names", inp)
+				}
+			}
+			c.count("account_token_with_respelled_members")
+		}
+	}
 	// ---------- the answer follows the key lists AS THEY ARE NOW: query, rotate keys (same number of keys), query again
 	{
 		oc := jwt.NewOperatorClaims(O)
